@@ -249,7 +249,7 @@ class HttpBeaconClient:
         info = f"{self.computer}\t{self.user}\t{self.process}"
 
         # info cannot be larger than 51 bytes, truncate it to be sure.
-        info = info[:51]
+        info = info.encode()[:51]
 
         # ip is in little endian
         self.internal_ip = ipaddress.IPv4Address(internal_ip or random_internal_ip())
@@ -282,7 +282,7 @@ class HttpBeaconClient:
         self.metadata.ver_major = ver_major
         self.metadata.ver_minor = ver_minor
         self.metadata.ver_build = ver_build
-        self.metadata.info = info.encode()
+        self.metadata.info = info
 
         self.c2http = C2Http(bconfig, aes_key=self.aes_key, hmac_key=self.hmac_key)
 
